@@ -72,24 +72,45 @@ def r1_who_may_emit(run, w, RID, with_adds=False, extras_rule=None):
   extras_applied(run, w, extras_rule or RID)
 
 
+def _action_field(r, p_action, i, fields):
+  """Root r is field i of the action parameter (by position or by field name)."""
+  return r.kind == "param" and r.node == p_action and \
+      r.path in ((("idx", i),), (("attr", fields[i]),))
+
+
+def _same_object(flow, e1, n1, e2, n2):
+  """Both expressions have one origin, and it is the same one."""
+  r1, r2 = flow.roots(e1, n1), flow.roots(e2, n2)
+  return len(r1) == 1 and len(r2) == 1 and r1[0].node is r2[0].node and r1[0].path == r2[0].path \
+      and not isinstance(r1[0].node, str)
+
+
 def convert_calls_prepare(run, w, RID, with_adds):
   fn = w.fn("engine.Engine.convert_action_values")
   flow = H.Flow(fn)
   cfg = fn.cfg
   p_action = fn.fi.params()[1]
-  rets = H.returns_of(fn.node)
-  if len(rets) != 1 or not isinstance(rets[0].value, ast.Tuple) or len(rets[0].value.elts) != 2:
-    raise AnalysisError("convert_action_values: expected a single `return (action, extras)`")
-  ret = rets[0]
-  r_action, r_extra = ret.value.elts
-  if not isinstance(r_extra, ast.Name) or not isinstance(r_action, ast.Call) or \
-      len(r_action.args) != 3 or not isinstance(r_action.args[2], ast.Name):
-    raise AnalysisError("convert_action_values: unrecognised return shape %s" % short(ret))
-  EX, NV = r_extra.id, r_action.args[2].id
-  ok = [text(a) for a in r_action.args[:2]] == [x for x in _unpacked(fn, p_action)[:2]] and \
-      text(r_action.func) in ("type(%s)" % p_action, "%s.__class__" % p_action)
-  run.ob(RID, fn.qualname, short(ret.value), "the converted action has the type, table and row "
-         "ids of the action passed in", ok, fi=fn.fi, node=ret)
+  fields = w.action_types().get("BulkUpdateRecord")
+  if not fields or len(fields) != 3:
+    raise AnalysisError("actions.BulkUpdateRecord: unexpected fields")
+  rets = [n for n in cfg.nodes if n.kind == "return"]
+  if len(rets) != 1:
+    raise AnalysisError("convert_action_values: expected a single return")
+  rn = rets[0]
+  rv = H.resolve(flow, rn.stmt.value, rn.id)
+  if not isinstance(rv, ast.Tuple) or len(rv.elts) != 2:
+    raise AnalysisError("convert_action_values: expected `return (action, extras)`")
+  r_action, r_extra = H.resolve(flow, rv.elts[0], rn.id), rv.elts[1]
+  if not isinstance(r_action, ast.Call) or len(r_action.args) != 3:
+    raise AnalysisError("convert_action_values: unrecognised return shape %s" % short(rn.stmt))
+  r_nv = r_action.args[2]
+  an = flow.node_of(r_action)
+  ok = text(r_action.func) in ("type(%s)" % p_action, "%s.__class__" % p_action)
+  for i in (0, 1):
+    rs = flow.roots(r_action.args[i], an)
+    ok = ok and bool(rs) and all(_action_field(r, p_action, i, fields) for r in rs)
+  run.ob(RID, fn.qualname, short(rv), "the converted action has the type, table and row "
+         "ids of the action passed in", ok, fi=fn.fi, node=rn.stmt)
   preps = [(n, c) for (n, c, nm) in fn.calls() if isinstance(c.func, ast.Attribute) and
            c.func.attr == "prepare_new_values"]
   if len(preps) < 2:
@@ -105,7 +126,8 @@ def convert_calls_prepare(run, w, RID, with_adds):
     # iteration, on every path
     ext = set()
     for (m, c2, nm2) in fn.calls():
-      if nm2 in (EX + ".extend",) and len(c2.args) == 1:
+      if isinstance(c2.func, ast.Attribute) and c2.func.attr == "extend" and len(c2.args) == 1 \
+          and _same_object(flow, c2.func.value, m.id, r_extra, rn.id):
         rs = flow.roots(c2.args[0], m.id)
         if rs and all(r.kind == "call" and r.node is c and r.path == (("idx", 1),) for r in rs):
           ext.add(m.id)
@@ -118,14 +140,18 @@ def convert_calls_prepare(run, w, RID, with_adds):
            fi=fn.fi, node=c)
     # row ids handed to the column are the action's row ids
     rs = flow.roots(c.args[0], n.id) if c.args else []
-    ok = bool(rs) and all(r.kind == "param" and r.node == p_action and r.path == (("idx", 1),)
-                          for r in rs)
+    ok = bool(rs) and all(_action_field(r, p_action, 1, fields) for r in rs)
     run.ob(RID, fn.qualname, "%s(<row ids>)" % short(c.func), "prepare_new_values receives the "
            "row ids of the action", ok, fi=fn.fi, node=c)
     it_roots = flow.roots(loop.iter, lid)
+    def recv_is_columns(r):
+      if not isinstance(r.node.func, ast.Attribute):
+        return False
+      xs = flow.roots(r.node.func.value, r.nid)
+      return bool(xs) and all(_action_field(x, p_action, 2, fields) for x in xs)
     explicit = bool(it_roots) and all(
-      r.kind == "call" and endswith(dotted(r.node.func) or "", "items") and
-      _recv_is(flow, r, ("param", p_action, (("idx", 2),))) for r in it_roots)
+      r.kind == "call" and endswith(dotted(r.node.func) or "", "items") and recv_is_columns(r)
+      for r in it_roots)
     if explicit:
       seen_explicit = True
       g = H.guards_of(fn.node, _stmt_of(fn.node, c))
@@ -133,19 +159,21 @@ def convert_calls_prepare(run, w, RID, with_adds):
              "every column mentioned in the action is prepared, unconditionally", not g,
              witness="; ".join(short(t) for (t, _) in g) or None, fi=fn.fi, node=loop)
       # its new values replace the column's values in the converted action
-      st = [s for s in loop.body if isinstance(s, ast.Assign) and
-            isinstance(s.targets[0], ast.Subscript) and text(s.targets[0].value) == NV]
       okv = False
-      for s in st:
-        rs = flow.roots(s.value, flow.node_of(s.value))
-        okv = okv or (bool(rs) and all(r.kind == "call" and r.node is c and
-                                       r.path == (("idx", 0),) for r in rs))
-      run.ob(RID, fn.qualname, "%s[col_id] = <values returned by prepare_new_values>" % NV,
+      for m in cfg.nodes:
+        s = m.stmt
+        if m.kind == "stmt" and isinstance(s, ast.Assign) and \
+            isinstance(s.targets[0], ast.Subscript) and \
+            any(x is s for b in loop.body for x in ast.walk(b)) and \
+            _same_object(flow, s.targets[0].value, m.id, r_nv, an):
+          rs = flow.roots(s.value, m.id)
+          okv = okv or (bool(rs) and all(r.kind == "call" and r.node is c and
+                                         r.path == (("idx", 0),) for r in rs))
+      run.ob(RID, fn.qualname, "new_values[col_id] = <values returned by prepare_new_values>",
              "the converted action carries the prepared values", okv, fi=fn.fi, node=loop)
     elif with_adds:
       # the loop over all columns for added rows: skipped columns are the enumerated ones only
-      g = H.guards_of(fn.node, _stmt_of(fn.node, c))
-      allowed = []
+      g = H.guard_atoms(fn.node, _stmt_of(fn.node, c))
       ok = True
       for (t, pol) in g:
         if pol is True and isinstance(t, ast.Call) and dotted(t.func) == "isinstance" and \
@@ -154,17 +182,14 @@ def convert_calls_prepare(run, w, RID, with_adds):
                    (t.args[1].elts if isinstance(t.args[1], ast.Tuple) else [t.args[1]])}
           ok = ok and {"BulkAddRecord", "ReplaceTableData"} <= kinds
           continue
-        if pol is False and isinstance(t, ast.BoolOp) and isinstance(t.op, ast.Or):
-          for v in t.values:
-            tv = text(v)
-            if isinstance(v, ast.Compare) and isinstance(v.ops[0], ast.In) or \
-                tv.endswith(".is_formula()") or "is_virtual_column(" in tv:
-              allowed.append(tv)
-            else:
-              ok = False
+        tv = text(t)
+        if pol is False and (isinstance(t, ast.Compare) and isinstance(t.ops[0], ast.In) or
+                             tv.endswith(".is_formula()") or "is_virtual_column(" in tv):
+          continue
+        if pol is True and isinstance(t, ast.Compare) and isinstance(t.ops[0], ast.NotIn):
           continue
         ok = False
-      it_ok = endswith(text(loop.iter), "all_columns.items()")
+      it_ok = endswith(fn.name(H.strip_passthrough(loop.iter)), "all_columns.items")
       run.ob(RID, fn.qualname, "for col_id, col_obj in table.all_columns.items(): "
              "prepare_new_values(defaults)", "when rows are added every stored column not "
              "mentioned (formula and virtual columns excepted) is prepared with its default, so "
@@ -172,15 +197,6 @@ def convert_calls_prepare(run, w, RID, with_adds):
              witness="; ".join(short(t) for (t, _) in g), fi=fn.fi, node=loop)
   if not seen_explicit:
     raise AnalysisError("convert_action_values: loop over the action's own columns not found")
-
-
-def _unpacked(fn, p_action):
-  """Names bound by `a, b, c = <p_action>` at the top of the function."""
-  for s in fn.node.body:
-    if isinstance(s, ast.Assign) and isinstance(s.targets[0], ast.Tuple) and \
-        isinstance(s.value, ast.Name) and s.value.id == p_action:
-      return [text(e) for e in s.targets[0].elts]
-  raise AnalysisError("%s: `x, y, z = %s` not found" % (fn.qualname, p_action))
 
 
 def _recv_is(flow, r, want):
@@ -266,6 +282,28 @@ def _single(lst, what):
   return lst[0]
 
 
+def _xname(fn, e):
+  """Dotted name of an expression with local aliases expanded, or its text."""
+  return fn.name(e) or text(e)
+
+
+def _parents(root):
+  out = {}
+  for n in ast.walk(root):
+    for ch in ast.iter_child_nodes(n):
+      out[id(ch)] = n
+  return out
+
+
+def _is_root_call(flow, expr, nid, call):
+  """Every origin of expr is the result of `call`, taken whole."""
+  try:
+    rs = flow.roots(expr, nid)
+  except AnalysisError:
+    return False
+  return bool(rs) and all(r.kind == "call" and r.node is call and not r.path for r in rs)
+
+
 def r2_prepare(run, w):
   R2 = run.rule("C11-R2", "BaseReferenceColumn.prepare_new_values: stored values of the same "
                 "rows are the old values, one update per registered reverse column; registry "
@@ -275,74 +313,87 @@ def r2_prepare(run, w):
   ps = fn.fi.params()
   p_rows, p_vals = ps[1], ps[2]
   # registry lookup
-  look = [(n, c) for (n, c, nm) in fn.calls() if isinstance(c.func, ast.Attribute) and
-          c.func.attr == "get" and isinstance(c.func.value, ast.Attribute) and
-          c.func.value.attr.startswith("_reverse_cols")]
-  (ln, lc) = _single(look, "prepare_new_values: reverse-column registry lookup")
-  reg_attr = lc.func.value.attr
+  look = []
+  for (n, c, nm) in fn.calls():
+    parts = (nm or "").split(".")
+    if len(parts) >= 3 and parts[-1] == "get" and parts[-2].startswith("_reverse_cols"):
+      look.append((n, c, parts))
+  (ln, lc, lparts) = _single(look, "prepare_new_values: reverse-column registry lookup")
+  reg_attr = lparts[-2]
   init = w.fn("column.BaseReferenceColumn.__init__")
   dest = w.fn("column.BaseReferenceColumn.destroy")
   adds = [c for (n, c, nm) in init.calls() if nm == "_multimap_add"]
   rems = [c for (n, c, nm) in dest.calls() if nm == "_multimap_remove"]
   add = _single(adds, "BaseReferenceColumn.__init__: _multimap_add")
-  ok = len(add.args) == 3 and isinstance(add.args[0], ast.Attribute) and \
-      add.args[0].attr == reg_attr and text(add.args[0].value) == "self._table" and \
-      text(add.args[2]) == "self" and text(lc.func.value.value) == "self._target_table" and \
-      text(lc.args[0]) == "self.node"
+  ma = w.fn("column._multimap_add")
+  mr = w.fn("column._multimap_remove")
+  pa = ma.fi.params()
+  if len(pa) != 3 or len(mr.fi.params()) != 3:
+    raise AnalysisError("_multimap_add/_multimap_remove: parameter list changed")
+  ab = H.bind_args(add, ma.fi, skip_self=False)
+  a_map, a_key, a_val = [ab.get(x) for x in pa]
+  ok = None not in (a_map, a_key, a_val) and \
+      _xname(init, a_map) == "self._table." + reg_attr and _xname(init, a_val) == "self" and \
+      ".".join(lparts[:-2]) == "self._target_table" and lc.args and \
+      _xname(fn, lc.args[0]) == "self.node"
   # the registration key is the type's reverse source node
-  iflow = H.Flow(init)
   key_ok = False
-  if ok and H.is_self_attr(add.args[1]):
+  if ok and H.is_self_attr(a_key):
     src = [s for s in walk_no_nested(init.node) if isinstance(s, ast.Assign) and
-           text(s.targets[0]) == text(add.args[1])]
+           text(s.targets[0]) == text(a_key)]
     key_ok = len(src) == 1 and isinstance(src[0].value, ast.Call) and \
-        endswith(dotted(src[0].value.func), "type_obj.reverse_source_node")
-  run.ob(R2, fn.qualname, "%s.get(self.node)  <->  _multimap_add(self._table.%s, "
-         "<reverse source node>, self)" % (text(lc.func.value), reg_attr),
+        endswith(_xname(init, src[0].value.func), "type_obj.reverse_source_node")
+  elif ok:
+    v = H.resolve(H.Flow(init), a_key)
+    key_ok = isinstance(v, ast.Call) and endswith(_xname(init, v.func),
+                                                  "type_obj.reverse_source_node")
+  run.ob(R2, fn.qualname, "self._target_table.%s.get(self.node)  <->  _multimap_add(self._table.%s, "
+         "<reverse source node>, self)" % (reg_attr, reg_attr),
          "the column looks for its reverse columns in the target table's registry under its own "
          "node; a reverse column registers itself in its own table under the node it reverses",
          ok and key_ok, fi=fn.fi, node=lc)
-  ok = len(rems) == 1 and [text(a) for a in rems[0].args] == [text(a) for a in add.args]
+  ok = len(rems) == 1
   if ok:
-    ga = [(text(t), p) for (t, p) in H.guards_of(init.node, _stmt_of(init.node, add))]
-    gr = [(text(t), p) for (t, p) in H.guards_of(dest.node, _stmt_of(dest.node, rems[0]))]
+    rb = H.bind_args(rems[0], mr.fi, skip_self=False)
+    ok = [_xname(dest, rb.get(x)) if rb.get(x) is not None else None for x in mr.fi.params()] == \
+        [_xname(init, x) for x in (a_map, a_key, a_val)]
+  if ok:
+    ga = H.atom_texts(H.guard_atoms(init.node, _stmt_of(init.node, add)))
+    gr = H.atom_texts(H.guard_atoms(dest.node, _stmt_of(dest.node, rems[0])))
     ok = ga == gr
   run.ob(R2, dest.qualname, "_multimap_remove(<same registry>, <same key>, self)",
          "a destroyed column leaves the registry under the same condition and key it entered",
          ok, fi=dest.fi)
-  ma = w.fn("column._multimap_add")
-  pa = ma.fi.params()
-  ok = any(isinstance(c.func, ast.Attribute) and c.func.attr == "append" and
-           text(c.args[0]) == pa[2] and isinstance(c.func.value, ast.Call) and
-           text(c.func.value.func) == pa[0] + ".setdefault" and
-           text(c.func.value.args[0]) == pa[1] for c in calls_in(ma.node))
+  ok = False
+  for c in calls_in(ma.node):
+    if isinstance(c.func, ast.Attribute) and c.func.attr == "append" and len(c.args) == 1 and \
+        text(c.args[0]) == pa[2]:
+      recv = H.resolve(H.Flow(ma), c.func.value) if isinstance(c.func.value, ast.Name) \
+          else c.func.value
+      ok = ok or (isinstance(recv, ast.Call) and text(recv.func) == pa[0] + ".setdefault" and
+                  bool(recv.args) and text(recv.args[0]) == pa[1])
   run.ob(R2, ma.qualname, "mapping.setdefault(key, []).append(value)",
          "registration keeps every reverse column of a node", ok, fi=ma.fi)
   # the adjustment computation
-  gra = [(n, c) for (n, c, nm) in fn.calls() if endswith(nm, "get_reverse_adjustments")]
+  gra = [(n, c) for (n, c, nm) in H.calls(fn) if endswith(nm, "get_reverse_adjustments")]
   (gn, gc) = _single(gra, "prepare_new_values: get_reverse_adjustments call")
   callee = w.fn("reverse_references.get_reverse_adjustments")
   b = H.bind_args(gc, callee.fi, skip_self=False)
   cp = callee.fi.params()
-  if len(cp) != 5:
+  if len(cp) != 5 or any(x not in b for x in cp):
     raise AnalysisError("get_reverse_adjustments: parameter list changed")
-  rs = flow.roots(b[cp[0]], gn.id)
+  def is_rows(rs):
+    return bool(rs) and all(r.kind == "param" and r.node == p_rows and not r.path for r in rs)
   run.ob(R2, fn.qualname, "get_reverse_adjustments(%s, ...)" % p_rows,
          "adjustments are computed for the rows being written",
-         bool(rs) and all(r.kind == "param" and r.node == p_rows and not r.path for r in rs),
-         fi=fn.fi, node=gc)
-  rs = flow.roots(b[cp[1]], gn.id)
-  ok = bool(rs)
-  for r in rs:
-    okr = r.kind == "comp" and not r.path and isinstance(r.node, ast.ListComp) and \
-        len(r.node.generators) == 1 and not r.node.generators[0].ifs
-    if okr:
-      g = r.node.generators[0]
-      it = flow.roots(g.iter, r.nid)
-      okr = all(x.kind == "param" and x.node == p_rows and not x.path for x in it) and \
-          isinstance(r.node.elt, ast.Call) and \
-          text(r.node.elt.func) in ("self.raw_get", "self.safe_get") and \
-          [text(a) for a in r.node.elt.args] == [text(g.target)]
+         is_rows(flow.roots(b[cp[0]], gn.id)), fi=fn.fi, node=gc)
+  els = H.elements(fn, flow, b[cp[1]], gn.id)
+  ok = bool(els)
+  for el in els or []:
+    okr = len(el.gens) == 1 and not el.conds and isinstance(el.gens[0][0], ast.Name) and \
+        is_rows(flow.roots(el.gens[0][1], el.nid)) and isinstance(el.elt, ast.Call) and \
+        _xname(fn, el.elt.func) in ("self.raw_get", "self.safe_get") and \
+        [text(a) for a in el.elt.args] == [el.gens[0][0].id] and not el.elt.keywords
     ok = ok and okr
   run.ob(R2, fn.qualname, "old_values = [self.raw_get(r) for r in %s]" % p_rows,
          "the old values are the values stored for exactly the rows being written, read before "
@@ -351,55 +402,119 @@ def r2_prepare(run, w):
   du = flow.du
   from_param = du.flows_from(lambda x: isinstance(x, ast.Name) and x.id == p_vals and
                              isinstance(x.ctx, ast.Load), newv)
-  from_store = any(r.kind == "comp" and isinstance(r.node.elt, ast.Call) and
-                   text(r.node.elt.func) in ("self.raw_get", "self.safe_get")
+  def reads_store(e):
+    return any(isinstance(x, ast.Call) and _xname(fn, x.func) in ("self.raw_get", "self.safe_get")
+               for x in ast.walk(e))
+  from_store = any(isinstance(r.node, ast.AST) and reads_store(r.node)
                    for r in flow.roots(newv, gn.id))
+  same = _same_object(flow, newv, gn.id, b[cp[1]], gn.id)
   run.ob(R2, fn.qualname, "get_reverse_adjustments(..., <new values>, ...)",
          "the new values are the values being written (not stored ones)",
-         from_param and not from_store and text(newv) != text(b[cp[1]]), fi=fn.fi, node=gc)
+         from_param and not from_store and not same, fi=fn.fi, node=gc)
   run.ob(R2, fn.qualname, "value_iterator=%s, relation=%s" % (text(b[cp[3]]), text(b[cp[4]])),
          "targets are enumerated with this column's own iterator and looked up in this column's "
-         "own relation", text(b[cp[3]]) == "self._value_iterable" and
-         text(b[cp[4]]) == "self._relation", fi=fn.fi, node=gc)
-  # reverse_cols variable and the emission loop
-  rc_assign = [s for s in walk_no_nested(fn.node) if isinstance(s, ast.Assign) and
-               s.value is lc and isinstance(s.targets[0], ast.Name)]
-  RC = _single(rc_assign, "prepare_new_values: reverse_cols assignment").targets[0].id
-  ra_assign = [s for s in walk_no_nested(fn.node) if isinstance(s, ast.Assign) and
-               s.value is gc and isinstance(s.targets[0], ast.Name)]
-  RA = _single(ra_assign, "prepare_new_values: reverse_adjustments assignment").targets[0].id
-  gg = [(text(t), p) for (t, p) in H.guards_of(fn.node, ra_assign[0])]
-  run.ob(R2, fn.qualname, "if %s: ... get_reverse_adjustments" % RC,
+         "own relation", _xname(fn, b[cp[3]]) == "self._value_iterable" and
+         _xname(fn, b[cp[4]]) == "self._relation", fi=fn.fi, node=gc)
+  # what stands for "the registered reverse columns" / "the computed adjustments"
+  def is_rc(e, nid):
+    return _is_root_call(flow, e, nid, lc)
+  def is_ra(e, nid):
+    return _is_root_call(flow, e, nid, gc)
+  def classify(atoms, nid):
+    """(known atoms as ('RC'|'RA', polarity), other atoms)"""
+    known, other = [], []
+    for (t, p) in atoms:
+      try:
+        tn = flow.node_of(t)
+      except AnalysisError:
+        tn = nid
+      if is_rc(t, tn):
+        known.append(("RC", p))
+      elif is_ra(t, tn):
+        known.append(("RA", p))
+      else:
+        other.append((t, p))
+    return known, other
+  gstmt = _stmt_of(fn.node, gc)
+  known, other = classify(H.guard_atoms(fn.node, gstmt), gn.id)
+  run.ob(R2, fn.qualname, "if <reverse cols>: ... get_reverse_adjustments",
          "adjustments are computed whenever a reverse column is registered",
-         gg == [(RC, True)], witness=repr(gg), fi=fn.fi, node=gc)
-  rets = H.returns_of(fn.node)
-  ok_ret = len(rets) == 1 and isinstance(rets[0].value, ast.Tuple) and \
-      len(rets[0].value.elts) == 2 and isinstance(rets[0].value.elts[1], ast.Name)
-  ADJ = rets[0].value.elts[1].id if ok_ret else None
-  emit_ok = False
+         not other and all(k == ("RC", True) for k in known),
+         witness="; ".join("%s=%s" % (short(t), p) for (t, p) in other) or None, fi=fn.fi,
+         node=gc)
+  # emission: one action per registered reverse column
+  a2as = [c for c in calls_in(fn.node) if _xname(fn, c.func) == "_adjustments_to_action"]
+  a2a = _single(a2as, "prepare_new_values: _adjustments_to_action call")
+  an = flow.node_of(a2a)
+  ab2 = H.bind_args(a2a, w.fn("column._adjustments_to_action").fi, skip_self=False)
+  a_node, a_pairs = [ab2.get(x) for x in w.fn("column._adjustments_to_action").fi.params()[:2]]
+  par = _parents(fn.node)
+  # the generator that supplies the reverse column: innermost enclosing comprehension / for loop
+  lv = a_node.value.id if isinstance(a_node, ast.Attribute) and a_node.attr == "node" and \
+      isinstance(a_node.value, ast.Name) else None
+  driver = None
+  extra_atoms = []
+  cur = a2a
+  while id(cur) in par and lv is not None:
+    up = par[id(cur)]
+    if isinstance(up, (ast.ListComp, ast.SetComp, ast.GeneratorExp)):
+      for g in up.generators:
+        extra_atoms += [x for t in g.ifs for x in H.split_guard(t, True)]
+        if driver is None and isinstance(g.target, ast.Name) and g.target.id == lv:
+          driver = (g.iter, an)
+    elif isinstance(up, ast.IfExp):
+      if cur is up.body:
+        extra_atoms += H.split_guard(up.test, True)
+      elif cur is up.orelse:
+        extra_atoms += H.split_guard(up.test, False)
+    elif isinstance(up, ast.For) and driver is None and isinstance(up.target, ast.Name) and \
+        up.target.id == lv and any(x is cur for x in up.body):
+      driver = (up.iter, [m.id for m in fn.cfg.nodes if m.stmt is up][0])
+    if isinstance(up, (ast.FunctionDef, ast.AsyncFunctionDef, ast.Lambda)):
+      break
+    cur = up
   wit = None
-  for s in walk_no_nested(fn.node):
-    if not (isinstance(s, ast.For) and isinstance(s.target, ast.Name)):
+  emit_ok = driver is not None and is_rc(driver[0], driver[1])
+  if driver is not None and not emit_ok:
+    wit = "loop iterates %s, not every registered reverse column" % short(driver[0])
+  pit = _pairs_through_list_to_value(H.resolve(flow, a_pairs, an), lv) if lv else None
+  if emit_ok:
+    emit_ok = pit is not None and is_ra(pit, an)
+    if not emit_ok:
+      wit = "pairs %s" % short(a_pairs)
+  if emit_ok:
+    known, other = classify(H.guard_atoms(fn.node, _stmt_of(fn.node, a2a)) + extra_atoms, an)
+    emit_ok = not other and all(p is True for (k, p) in known)
+    if not emit_ok:
+      wit = "guards %s" % "; ".join("%s=%s" % (short(t), p) for (t, p) in other)
+  # delivery: the actions are in the list every return hands back (unless nothing is registered
+  # or nothing changed)
+  deliv_ok = True
+  recv = None
+  up = par.get(id(a2a))
+  if isinstance(up, ast.Call) and isinstance(up.func, ast.Attribute) and up.func.attr == "append" \
+      and any(a is a2a for a in up.args):
+    recv = up.func.value
+  for case in H.return_cases(fn.node):
+    rn = [m.id for m in fn.cfg.nodes if m.stmt is case.stmt][0]
+    v = H.resolve(flow, case.value, rn) if case.value is not None else None
+    known, other = classify(case.atoms, rn)
+    if any(p is False for (k, p) in known):
       continue
-    if not (isinstance(s.iter, ast.Name) and s.iter.id == RC):
-      if RC in {x.id for x in ast.walk(s.iter) if isinstance(x, ast.Name)}:
-        wit = "loop iterates %s, not every registered reverse column" % short(s.iter)
-      continue
-    lv = s.target.id
-    for c in calls_in(s.body):
-      if fn.name(c) == "%s.append" % ADJ and len(c.args) == 1 and \
-          isinstance(c.args[0], ast.Call) and dotted(c.args[0].func) == "_adjustments_to_action":
-        a2a = c.args[0]
-        g = [(text(t), p) for (t, p) in H.guards_of(fn.node, _stmt_of(fn.node, c))]
-        if g == [(RC, True), (RA, True)] and text(a2a.args[0]) == lv + ".node" and \
-            _pairs_through_list_to_value(a2a.args[1], lv, RA):
-          emit_ok = True
-        else:
-          wit = "guards %r / pairs %s" % (g, short(a2a.args[1]))
-  run.ob(R2, fn.qualname, "for reverse_col in %s: %s.append(_adjustments_to_action("
-         "reverse_col.node, ...))" % (RC, ADJ), "one update action per registered reverse "
-         "column, covering every adjusted target row, returned to the caller", emit_ok and ok_ret,
-         witness=wit, fi=fn.fi)
+    got = False
+    if isinstance(v, ast.Tuple) and len(v.elts) == 2:
+      for r in flow.roots(v.elts[1], rn):
+        if isinstance(r.node, ast.AST) and any(x is a2a for x in ast.walk(r.node)):
+          got = True
+      if recv is not None and _same_object(flow, recv, an, v.elts[1], rn):
+        got = True
+    if not got:
+      deliv_ok = False
+      wit = wit or "return %s does not hand back the reverse-column updates" % short(case.value)
+  run.ob(R2, fn.qualname, "for reverse_col in <reverse cols>: adjustments.append("
+         "_adjustments_to_action(reverse_col.node, ...))", "one update action per registered "
+         "reverse column, covering every adjusted target row, returned to the caller",
+         emit_ok and deliv_ok, witness=wit, fi=fn.fi)
   # overrides delegate to the base implementation for the same rows
   base = w.repo.cls("column.BaseReferenceColumn")
   for ci in w.repo.subclasses(base, strict=True):
@@ -407,44 +522,54 @@ def r2_prepare(run, w):
     if m is None:
       continue
     mfn = w.fn_of(m)
+    mflow = H.Flow(mfn)
     mps = m.params()
-    rets = H.returns_of(m.node)
+    rets = [x for x in mfn.cfg.nodes if x.kind == "return"]
     ok = bool(rets)
-    for r in rets:
-      v = r.value
-      okr = isinstance(v, ast.Call) and isinstance(v.func, ast.Attribute) and \
-          v.func.attr == "prepare_new_values" and isinstance(v.func.value, ast.Call) and \
-          dotted(v.func.value.func) == "super" and len(v.args) >= 2 and \
-          text(v.args[0]) == mps[1]
-      if okr:
-        okr = H.Flow(mfn).du.flows_from(
-          lambda x: isinstance(x, ast.Name) and x.id == mps[2], v.args[1])
+    for rn in rets:
+      okr = False
+      for case in H.value_cases(mfn, mflow, rn.stmt.value, rn.id) if rn.stmt.value is not None \
+          else []:
+        v = case.value
+        okr = isinstance(v, ast.Call) and isinstance(v.func, ast.Attribute) and \
+            v.func.attr == "prepare_new_values" and isinstance(v.func.value, ast.Call) and \
+            dotted(v.func.value.func) == "super"
+        if okr:
+          bb = H.bind_args(v, fn.fi)
+          okr = ps[1] in bb and ps[2] in bb and text(bb[ps[1]]) == mps[1] and \
+              mflow.du.flows_from(lambda x: isinstance(x, ast.Name) and x.id == mps[2], bb[ps[2]])
+        if not okr:
+          break
       ok = ok and okr
     run.ob(R2, m.qualname, "return super().prepare_new_values(%s, <values>, ...)" % mps[1],
            "every override ends in the base implementation for the same rows (the only place "
            "reverse adjustments are made)", ok, fi=m)
 
 
-def _pairs_through_list_to_value(pairs, colvar, src):
-  """[(row_id, <colvar>._list_to_value(value)) for (row_id, value) in <src>]"""
+def _pairs_through_list_to_value(pairs, colvar):
+  """For `[(row_id, <colvar>._list_to_value(value)) for (row_id, value) in <src>]` the <src>
+  expression; None for anything else."""
   if not (isinstance(pairs, ast.ListComp) and len(pairs.generators) == 1):
-    return False
+    return None
   g = pairs.generators[0]
-  if g.ifs or not (isinstance(g.iter, ast.Name) and g.iter.id == src):
-    return False
+  if g.ifs:
+    return None
   if not (isinstance(g.target, ast.Tuple) and len(g.target.elts) == 2 and
           all(isinstance(e, ast.Name) for e in g.target.elts)):
-    return False
+    return None
   rid, val = [e.id for e in g.target.elts]
   e = pairs.elt
-  return isinstance(e, ast.Tuple) and len(e.elts) == 2 and text(e.elts[0]) == rid and \
+  if isinstance(e, ast.Tuple) and len(e.elts) == 2 and text(e.elts[0]) == rid and \
       isinstance(e.elts[1], ast.Call) and text(e.elts[1].func) == colvar + "._list_to_value" and \
-      [text(a) for a in e.elts[1].args] == [val]
+      [text(a) for a in e.elts[1].args] == [val] and not e.elts[1].keywords:
+    return g.iter
+  return None
 
 
 # --------------------------------------------------------------------------------------- R3
 
 class _LenSubst(ast.NodeTransformer):
+  """len(<param>) and the bare parameter (its truth value) both stand for the list's length."""
   def __init__(self, param):
     self.param = param
     self.other = False
@@ -456,55 +581,83 @@ class _LenSubst(ast.NodeTransformer):
     self.other = True
     return node
 
+  def visit_Name(self, node):
+    if node.id == self.param:
+      return ast.copy_location(ast.Name(id="__len__", ctx=ast.Load()), node)
+    return node
+
+
+def _len_set(flow, atoms, param):
+  """(lengths of `param` compatible with all the atoms, atoms that are not about its length)."""
+  s = IntSet([(0, INF)])
+  unknown = []
+  for (t, pol) in atoms:
+    sub = _LenSubst(param)
+    e = sub.visit(flow.du.inline(t, stop=(param,)))
+    if sub.other:
+      unknown.append(t)
+      continue
+    try:
+      cs = cond_set(e, "__len__")
+    except AnalysisError:
+      unknown.append(t)
+      continue
+    cs = IntSet(cs.iv)
+    if not pol:
+      cs = IntSet(cs.complement().iv)
+    s = s.intersect(cs)
+  return IntSet(s.iv), unknown
+
 
 def r3_unique(run, w):
   R3 = run.rule("C11-R3", "ReferenceColumn._list_to_value raises UniqueReferenceError exactly for "
                 "lists of two or more targets, before any return; the error is an Exception; "
                 "every reverse-column write passes _list_to_value", floor=4)
   fn = w.fn("column.ReferenceColumn._list_to_value")
+  flow = H.Flow(fn)
   cfg = fn.cfg
   p = fn.fi.params()[1]
   err = w.repo.cls("column.UniqueReferenceError")
-  rejecting = {}
-  for n in cfg.nodes:
-    if n.kind != "if":
+  two_plus = IntSet([(2, INF)])
+  raises = []
+  for s in walk_no_nested(fn.node):
+    if not isinstance(s, ast.Raise) or s.exc is None:
       continue
-    raises = [s for s in n.stmt.body if isinstance(s, ast.Raise)]
-    if not raises or n.stmt.body[-1] is not raises[-1]:
-      continue
-    exc = raises[-1].exc
+    exc = H.resolve(flow, s.exc) if isinstance(s.exc, ast.Name) else s.exc
     cname = dotted(exc.func) if isinstance(exc, ast.Call) else dotted(exc)
-    ci = w.repo.resolve_class_name(fn.fi.module, cname)
-    if ci is not err:
-      continue
-    sub = _LenSubst(p)
-    test = sub.visit(copy.deepcopy(n.stmt.test))
-    if sub.other:
-      raise AnalysisError("_list_to_value: rejecting test is not a pure length test: %s"
-                          % short(n.stmt.test))
-    rejecting[n.id] = cond_set(test, "__len__").intersect(IntSet([(0, INF)]))
-  if not rejecting:
+    if w.repo.resolve_class_name(fn.fi.module, cname) is err:
+      raises.append(s)
+  if not raises:
     run.ob(R3, fn.qualname, "if len(%s) > 1: raise UniqueReferenceError" % p,
            "a single-valued reference side is never given two targets", False, fi=fn.fi)
   else:
+    # lengths under which a rejection can be reached: never a list with fewer than two targets
     tot = IntSet()
-    for s in rejecting.values():
-      tot = tot.union(s)
-    want = IntSet([(2, INF)])
+    ok = True
+    for s in raises:
+      ls, unknown = _len_set(flow, H.guard_atoms(fn.node, s), p)
+      tot = tot.union(ls)
+      if not ls.subset_of(two_plus):
+        if unknown:
+          raise AnalysisError("_list_to_value: rejecting test is not a pure length test: %s"
+                              % short(unknown[0]))
+        ok = False
+    # lengths under which a value can be returned: never a list with two or more targets
+    wit = None
+    for case in H.return_cases(fn.node):
+      ls, unknown = _len_set(flow, case.atoms, p)
+      if not ls.intersect(two_plus).empty():
+        ok = False
+        wit = "%s is reached for lengths %r" % (short(case.stmt), ls)
     run.ob(R3, fn.qualname, "rejected lengths = %r" % tot,
            "exactly the lists with two or more targets are rejected (none accepted, and a single "
-           "target is never refused)", want.subset_of(tot) and tot.subset_of(want), fi=fn.fi)
+           "target is never refused)", ok, witness=wit, fi=fn.fi)
     rets = [n.id for n in cfg.nodes if n.kind == "return"]
-    ok = bool(rets) and all(cfg.dominated_by(r, set(rejecting)) for r in rets)
-    wit = None
-    if not ok:
-      for r in rets:
-        pth = cfg.path(cfg.entry.id, {r}, removed=set(rejecting))
-        if pth:
-          wit = cfg.describe_path(pth)
-    run.ob(R3, fn.qualname, "length test dominates every return",
-           "no value is produced for the Ref cell before the uniqueness test", ok, witness=wit,
-           fi=fn.fi)
+    rnodes = {n.id for n in cfg.nodes if n.stmt is not None and any(n.stmt is s for s in raises)}
+    # the test is made before a value is produced: no return node lies on a path to a rejection
+    ok = bool(rets) and not any(cfg.reach_after({r}) & rnodes for r in rets)
+    run.ob(R3, fn.qualname, "length test precedes every return",
+           "no value is produced for the Ref cell before the uniqueness test", ok, fi=fn.fi)
   bases = set()
   for c in w.repo.mro(err):
     bases |= {b for b in c.base_names if b}
@@ -513,18 +666,19 @@ def r3_unique(run, w):
          bool(bases & BUILTIN_EXCEPTIONS), nontrivial=False)
   # every action built for a reverse column converts each value with that column's _list_to_value
   n_sites = 0
+  a2a_fi = w.fn("column._adjustments_to_action").fi
   for q in ("column.BaseReferenceColumn.prepare_new_values",
             "column.BaseReferenceColumn.recalc_from_reverse_values"):
     f2 = w.fn(q)
+    fl2 = H.Flow(f2)
     for c in calls_in(f2.node):
-      if dotted(c.func) == "_adjustments_to_action" and len(c.args) == 2:
+      if _xname(f2, c.func) == "_adjustments_to_action":
         n_sites += 1
-        a0 = c.args[0]
+        b = H.bind_args(c, a2a_fi, skip_self=False)
+        a0, a1 = [b.get(x) for x in a2a_fi.params()[:2]]
         colvar = text(a0.value) if isinstance(a0, ast.Attribute) and a0.attr == "node" else None
-        pairs = c.args[1]
-        ok = colvar is not None and isinstance(pairs, ast.ListComp) and \
-            isinstance(pairs.generators[0].iter, ast.Name) and \
-            _pairs_through_list_to_value(pairs, colvar, pairs.generators[0].iter.id)
+        pairs = H.resolve(fl2, a1, fl2.node_of(c)) if a1 is not None else None
+        ok = colvar is not None and _pairs_through_list_to_value(pairs, colvar) is not None
         run.ob(R3, q, short(c), "every value written to the reverse column is produced by that "
                "same column's _list_to_value (where the uniqueness test lives)", ok, fi=f2.fi,
                node=c)
@@ -550,60 +704,57 @@ def r4_rebuild(run, w):
       k = E.action_ctor(c.args[0], names)
       if k and k[0] == "ModifyColumn":
         mod.add(n.id)
-  rec = [(n, c) for (n, c, nm) in fn.calls() if endswith(nm, "recalc_from_reverse_values")]
+  rec = [(n, c) for (n, c, nm) in H.calls(fn) if endswith(nm, "recalc_from_reverse_values")]
   if not mod:
     raise AnalysisError("doModifyColumn: ModifyColumn emission not found")
   def is_type_test(t):
     return isinstance(t, ast.Compare) and len(t.ops) == 1 and isinstance(t.ops[0], ast.In) and \
         isinstance(t.left, ast.Constant) and t.left.value == "type" and \
         text(t.comparators[0]) == p_info
+  def mentions_type(t):
+    return "type" in [c.value for c in ast.walk(t) if isinstance(c, ast.Constant)]
+  def value_dependent(t):
+    # a predicate on the *value* of the new type (prefix test, equality, membership)
+    for x in ast.walk(t):
+      if isinstance(x, ast.Call) and isinstance(x.func, ast.Attribute) and \
+          x.func.attr in ("startswith", "endswith") and mentions_type(x.func.value):
+        return True
+      if isinstance(x, ast.Compare) and isinstance(x.ops[0], (ast.Eq, ast.NotEq)) and \
+          mentions_type(x):
+        return True
+    return False
   ok = False
   wit = None
   if rec:
     (rn, rc) = rec[0]
-    # the if-statements after the schema action that enclose the rebuild
-    encl = [n for n in cfg.nodes if n.kind == "if" and
-            any(y is rc for st in n.stmt.body + n.stmt.orelse for y in ast.walk(st)) and
-            all(cfg.dominated_by(n.id, {m}) for m in mod)]
-    if not encl:
-      # unconditional rebuild after the schema action: covers the type-change case
-      ok = all(cfg.postdominated_by(m, {rn.id}) for m in mod)
-    elif len(encl) == 1 and is_type_test(encl[0].stmt.test) and \
-        any(y is rc for st in encl[0].stmt.body for y in ast.walk(st)):
-      t = encl[0]
-      ok = all(cfg.postdominated_by(m, {t.id}) for m in mod)
+    # the conditions, tested after the schema action, under which the rebuild runs
+    after = []
+    for (t, p) in H.guard_atoms(fn.node, _stmt_of(fn.node, rc)):
+      ifn = [n for n in cfg.nodes if n.kind == "if" and
+             any(x is t for x in ast.walk(n.stmt.test))]
+      if ifn and all(cfg.dominated_by(ifn[0].id, {m}) for m in mod):
+        after.append((t, p, ifn[0]))
+    tests = [(t, p, n) for (t, p, n) in after if is_type_test(t) and p is True]
+    rest = [(t, p, n) for (t, p, n) in after if not (is_type_test(t) and p is True)]
+    if not rest:
+      gate = {n.id for (t, p, n) in tests} | {rn.id}
+      ok = all(cfg.postdominated_by(m, gate) for m in mod)
       if not ok:
         for m in mod:
-          pth = cfg.path(m, {cfg.exit.id}, removed={t.id}, after=True)
+          pth = cfg.path(m, {cfg.exit.id}, removed=gate, after=True)
           if pth:
             wit = cfg.describe_path(pth)
     else:
-      over = [n for n in encl if isinstance(n.stmt.test, ast.BoolOp) and
-              isinstance(n.stmt.test.op, ast.And) and
-              any(is_type_test(v) for v in n.stmt.test.values)] + \
-             [n for n in encl if not is_type_test(n.stmt.test) and
-              "type" not in [c.value for c in ast.walk(n.stmt.test)
-                             if isinstance(c, ast.Constant)]]
-      def value_dependent(t):
-        # a predicate on the *value* of the new type (prefix test, equality, membership)
-        for x in ast.walk(t):
-          if isinstance(x, ast.Call) and isinstance(x.func, ast.Attribute) and \
-              x.func.attr in ("startswith", "endswith") and \
-              "type" in [c.value for c in ast.walk(x.func.value) if isinstance(c, ast.Constant)]:
-            return True
-          if isinstance(x, ast.Compare) and isinstance(x.ops[0], (ast.Eq, ast.NotEq)) and \
-              "type" in [c.value for c in ast.walk(x) if isinstance(c, ast.Constant)]:
-            return True
-        return False
-      valdep = [n for n in encl if value_dependent(n.stmt.test)]
+      valdep = [t for (t, p, n) in rest if value_dependent(t)]
+      over = [t for (t, p, n) in rest if not mentions_type(t)]
       if over:
-        wit = "also guarded by: " + "; ".join(short(n.stmt.test) for n in over)
+        wit = "also guarded by: " + "; ".join(short(t) for t in over)
       elif valdep:
         wit = "rebuild depends on the value of the new type: " + \
-            "; ".join(short(n.stmt.test) for n in valdep)
+            "; ".join(short(t) for t in valdep)
       else:
         raise AnalysisError("doModifyColumn: cannot interpret the guard of the reverse-column "
-                            "rebuild: %s" % "; ".join(short(n.stmt.test) for n in encl))
+                            "rebuild: %s" % "; ".join(short(t) for (t, p, n) in rest))
   run.ob(R4, fn.qualname, "ModifyColumn -> if 'type' in %s: recalc_from_reverse_values()" % p_info,
          "whenever the type of a column changed, every normal path after the schema action "
          "reaches the rebuild of its reverse column, guarded by nothing else", ok, witness=wit,
@@ -623,7 +774,7 @@ def r4_rebuild(run, w):
   cfg = fn.cfg
   link = {n.id for (n, c, nm) in fn.calls() if endswith(nm, "_docmodel.update") and
           any(k.arg == "reverseCol" for k in c.keywords)}
-  rec = [(n, c) for (n, c, nm) in fn.calls() if endswith(nm, "recalc_from_reverse_values")]
+  rec = [(n, c) for (n, c, nm) in H.calls(fn) if endswith(nm, "recalc_from_reverse_values")]
   if not link:
     raise AnalysisError("AddReverseColumn: linking update (reverseCol=...) not found")
   ok = bool(rec) and all(cfg.dominated_by(n.id, link) for (n, c) in rec) and \
@@ -643,42 +794,54 @@ def r4_rebuild(run, w):
   # the rebuild itself
   fn = w.fn("column.BaseReferenceColumn.recalc_from_reverse_values")
   flow = H.Flow(fn)
-  loops = [s for s in walk_no_nested(fn.node) if isinstance(s, ast.For) and
-           text(H.strip_passthrough(s.iter)) == "self._target_table.row_ids" and
-           isinstance(s.target, ast.Name)]
+  a2a_fi = w.fn("column._adjustments_to_action").fi
+  a2a = [c for c in calls_in(fn.node) if _xname(fn, c.func) == "_adjustments_to_action"]
   ok = False
-  if len(loops) == 1:
-    lv = loops[0].target.id
-    reads = [c for c in calls_in(loops[0].body)
-             if text(c.func) == "self._relation.get_affected_rows" and len(c.args) == 1 and
-             isinstance(c.args[0], ast.Tuple) and [text(e) for e in c.args[0].elts] == [lv]]
-    apps = [c for c in calls_in(loops[0].body) if isinstance(c.func, ast.Attribute) and
-            c.func.attr == "append" and len(c.args) == 1 and isinstance(c.args[0], ast.Tuple) and
-            text(c.args[0].elts[0]) == lv]
-    ok = bool(reads) and bool(apps) and \
-        not any(isinstance(s, (ast.If, ast.Continue, ast.Break)) for b in loops[0].body
-                for s in ast.walk(b))
+  ok_col = False
+  wit = None
+  if len(a2a) == 1:
+    an = flow.node_of(a2a[0])
+    b = H.bind_args(a2a[0], a2a_fi, skip_self=False)
+    a0, a1 = [b.get(x) for x in a2a_fi.params()[:2]]
+    # the (target row, referring rows) pairs: one per row of the target table, unconditionally
+    src = None
+    if isinstance(a0, ast.Attribute) and a0.attr == "node" and a1 is not None:
+      src = _pairs_through_list_to_value(H.resolve(flow, a1, an), text(a0.value))
+    els = H.elements(fn, flow, src, an) if src is not None else None
+    ok = bool(els)
+    for el in els or []:
+      okr = len(el.gens) == 1 and isinstance(el.gens[0][0], ast.Name) and not el.conds and \
+          _xname(fn, H.strip_passthrough(el.gens[0][1])) == "self._target_table.row_ids" and \
+          isinstance(el.elt, ast.Tuple) and len(el.elt.elts) == 2
+      if okr:
+        lv = el.gens[0][0].id
+        okr = text(el.elt.elts[0]) == lv
+        val = flow.du.inline(el.elt.elts[1], stop=(lv,))
+        reads = [c for c in ast.walk(val) if isinstance(c, ast.Call) and
+                 _xname(fn, c.func) == "self._relation.get_affected_rows" and len(c.args) == 1 and
+                 isinstance(c.args[0], ast.Tuple) and [text(e) for e in c.args[0].elts] == [lv]]
+        okr = okr and bool(reads)
+      if el.conds:
+        wit = "only when %s" % "; ".join(short(t) for (t, p) in el.conds)
+      ok = ok and okr
+    if isinstance(a0, ast.Attribute):
+      rs = flow.roots(a0.value, an)
+      ok_col = bool(rs)
+      for r in rs:
+        okr = r.kind == "call" and _xname(fn, r.node.func) == "self._target_table.get_column" and \
+            len(r.node.args) == 1 and not r.path
+        if okr:
+          ks = flow.roots(r.node.args[0], r.nid)
+          okr = bool(ks) and all(k.kind == "param" and k.node == "self" and
+                                 k.path == (("attr", "_reverse_source_node"), ("idx", 1))
+                                 for k in ks)
+        ok_col = ok_col and okr
   run.ob(R4, fn.qualname, "for target_row_id in self._target_table.row_ids: "
          "get_affected_rows((target_row_id,))", "the rebuild recomputes the reverse cell of every "
-         "row of the target table from this column's relation", ok, fi=fn.fi)
-  a2a = [c for c in calls_in(fn.node) if dotted(c.func) == "_adjustments_to_action"]
-  ok = False
-  if len(a2a) == 1 and isinstance(a2a[0].args[0], ast.Attribute):
-    nid = flow.node_of(a2a[0])
-    rs = flow.roots(a2a[0].args[0].value, nid)
-    ok = bool(rs)
-    for r in rs:
-      okr = r.kind == "call" and text(r.node.func) == "self._target_table.get_column" and \
-          len(r.node.args) == 1
-      if okr:
-        ks = flow.roots(r.node.args[0], r.nid)
-        okr = bool(ks) and all(k.kind == "param" and k.node == "self" and
-                               k.path == (("attr", "_reverse_source_node"), ("idx", 1))
-                               for k in ks)
-      ok = ok and okr
+         "row of the target table from this column's relation", ok, witness=wit, fi=fn.fi)
   run.ob(R4, fn.qualname, "reverse_col = self._target_table.get_column(<col id of "
          "self._reverse_source_node>)", "the rebuilt column is the registered reverse column in "
-         "the target table", ok, fi=fn.fi)
+         "the target table", ok_col, fi=fn.fi)
 
 
 def _result_emitted(run, R4, fn, flow, rn, rc):
